@@ -88,6 +88,7 @@ func (c *ntlmContext) Authenticate(authorisationEncoded string, r *auth.NtlmResp
 		if p := recover(); p != nil {
 			r.Authenticated = false
 			r.Username = ""
+			c.session = nil
 			err = errors.New(fmt.Sprintf("Malformed NTLM message: %v", p))
 		}
 	}()
@@ -159,7 +160,14 @@ func (c *ntlmContext) authenticate(am *ntlm.AuthenticateMessage, r *auth.NtlmRes
         
         c.session.SetUserInfo(username,password,"")
 
-        err := c.session.ProcessAuthenticateMessage(am)
+	// a server session verifies one response only: go-ntlm derives its keys from
+	// the first user it checks and keeps them, so a further response on the same
+	// session would be checked against that first user's password whatever user
+	// it names. Another attempt has to start with a new negotiate message.
+	session := c.session
+	c.session = nil
+
+        err := session.ProcessAuthenticateMessage(am)
         if err != nil {
 		log.Printf("Failed to process NTLM authenticate message: %s", err)
 		return nil
